@@ -27,6 +27,8 @@ type Op struct {
 	EndTo int64   // >0: run end-blockers up to and including this height, new block in progress = EndTo+1
 	// Custom is an environment move that is neither a tx nor a block advance (e.g. bank send by harness).
 	Custom func(w *world.World, ctx sdk.Context) world.Result
+	// Meta carries oracle-relevant facts about the operation (e.g. the victim of an adversarial request).
+	Meta map[string]string
 }
 
 type Ghost interface {
